@@ -5,7 +5,7 @@
 //!   kind reports c; after one clone-style op c+1; after one release c-1; borrow-style ops
 //!   (borrow_arc, with_arc, with_raw_offset_arc, with_arc_mut, as_ptr, Deref), comparisons,
 //!   hashing and formatting leave it at c, also when read *inside* the borrow callback.
-//!   Payloads: Drop-tracked sized value, header+slice (len 2) for ThinArc.
+//!   Payloads: Drop-tracked sized value, over-aligned (align 32) value, header+slice (len 2) for ThinArc.
 //! ASSUME: alloc/dealloc logging stubs; count preset through the cfg(triomphe_verif) hook.
 //! OUTSIDE: concurrent histories (C02); unwinding out of a callback (C07).
 use crate::ghost::*;
@@ -85,6 +85,10 @@ acc!(q_acc_raw, q_acc_clone_raw, q_acc_rel_raw, Raw<Dt>, mk_dt());
 acc!(q_acc_thin, q_acc_clone_thin, q_acc_rel_thin, ThinArc<Dt, Dt>, mk_hs_n::<2>());
 acc!(r0_acc_rawthin, r0_acc_clone_rawthin, r0_acc_rel_rawthin, RawThin<Dt, Dt>, mk_hs_n::<1>());
 acc!(r1_acc_swap, r1_acc_clone_swap, r1_acc_rel_swap, Swp<Dt>, mk_dt());
+// over-aligned payload: the count word is NOT the word right in front of the data (padding is)
+acc!(q_acc_offset_a32, r0_acc_clone_offset_a32, r1_acc_rel_offset_a32, OffsetArc<S33a32>, mk_a32());
+acc!(r2_acc_arc_a32, r1_acc_clone_arc_a32, r0_acc_rel_arc_a32, Arc<S33a32>, mk_a32());
+acc!(r0_acc_raw_a32, r2_acc_clone_raw_a32, r2_acc_rel_raw_a32, Raw<S33a32>, mk_a32());
 acc!(r2_acc_arc_dyn, r2_acc_clone_arc_dyn, r2_acc_rel_arc_dyn, Arc<dyn Tr>, mk_dyn());
 
 // ---------------------------------------------------------------- inside borrow callbacks
